@@ -15,7 +15,7 @@ def bisect_enum(ctx, mod, line, exe, cfg):
         mid = (lo + hi) // 2
         l1 = " ".join(head + [str(lo), str(mid)])
         m = vcore.run_model(ctx, [l1])[0]
-        i, _ = vcore.run_impl(ctx, exe, [l1], cfg[1])
+        i, _ = vcore.run_impl(ctx, exe, [l1], cfg[1], vcore.cfg_env(cfg))
         if not i or i[0] != m:
             hi = mid
         else:
@@ -75,9 +75,9 @@ def run_standard(mod, ctx):
         for cfg in cfgs:
             exe = vcore.build_hx(ctx, cfg[0], cfg[2])
             t = time.time()
-            impl_out, crashed = vcore.run_impl(ctx, exe, lines, cfg[1])
+            impl_out, crashed = vcore.run_impl(ctx, exe, lines, cfg[1], vcore.cfg_env(cfg))
             fl, _ = vcore.run_impl(ctx, exe, ["rt.flags"], cfg[1])
-            ctx.configs_run.append({"variant": cfg[0], "mask": cfg[1] or "none", "flavour": cfg[2], "ops": len(lines),
+            ctx.configs_run.append({"variant": cfg[0], "mask": cfg[1] or "none", "flavour": cfg[2], "env": vcore.cfg_env(cfg) or {}, "ops": len(lines),
                                     "wall_s": round(time.time() - t, 2), "runtime_flags": fl[0] if fl else None})
             # enum lines: refine to the first differing case before reporting
             lines2, m2, i2 = list(lines), list(model_out), list(impl_out)
@@ -87,10 +87,10 @@ def run_standard(mod, ctx):
                     one = mod.enum_case(ln, idx)
                     lines2[k] = one
                     m2[k] = vcore.run_model(ctx, [one])[0]
-                    o, _ = vcore.run_impl(ctx, exe, [one], cfg[1])
+                    o, _ = vcore.run_impl(ctx, exe, [one], cfg[1], vcore.cfg_env(cfg))
                     i2[k] = o[0] if o else None
             vcore.compare_streams(ctx, mod, lines2, m2, i2, cfg, crashed)
-            ctx.log("config %s/%s/%s: %d ops compared, violations so far %d" % (cfg[0], cfg[1] or "none", cfg[2], len(lines), len(ctx.violations)))
+            ctx.log("config %s/%s/%s%s: %d ops compared, violations so far %d" % (cfg[0], cfg[1] or "none", cfg[2], vcore.cfg_env_label(cfg), len(lines), len(ctx.violations)))
     if hasattr(mod, "extra"):
         mod.extra(ctx, rng)
     for (name, log) in tieb:
@@ -112,7 +112,7 @@ def do_replay(mod, ctx, path):
     cfg = (r.get("variant", "native"), r.get("mask", ""), r.get("flavour", "plain"))
     m = vcore.run_model(ctx, [line])[0]
     exe = vcore.build_hx(ctx, cfg[0], cfg[2])
-    i, crashed = vcore.run_impl(ctx, exe, [line], cfg[1])
+    i, crashed = vcore.run_impl(ctx, exe, [line], cfg[1], r.get("env") or None)
     print("op    :", line)
     print("model :", m)
     print("impl  :", i[0] if i else crashed)
